@@ -49,6 +49,8 @@ def flatten_val(v):
 
 def analyse(ctx, case, r, want=("oracle", "traced", "static")):
     """Returns the number of findings raised (known or not)."""
+    if case.get("static_only"):
+        want = tuple(w for w in want if w == "static")
     tol = case.get("tol", (0.0, 0.0))
     n = 0
     what_prefix = f"{case.get('meta', {}).get('func', '?')} [{case['id']}]"
@@ -83,6 +85,11 @@ def analyse(ctx, case, r, want=("oracle", "traced", "static")):
         ref = eg["ok"]
     elif orc is not None and ops.outcome_kind(orc) == "ok" and eg is None:
         ref = orc["ok"]
+    for m_ in flatten_meta((eg or {}).get("meta")) + [m for tr in r.get("traced", []) for m in flatten_meta(tr.get("meta") if isinstance(tr, dict) else None)]:
+        if m_ and "fields" in m_ and m_["fields"][0] != m_["fields"][1]:
+            n += 1
+            ctx.finding(attrs_of(case, "field-order", "any"), f"{what_prefix}: the result lists its fields as {m_['fields'][0]}, its dtype {m_['dtype']} declares {m_['fields'][1]}", replay_of(case, r, "any"))
+            break
     if "traced" in want or "static" in want:
         for sub, tr in zip(case.get("lazy_subsets", []), r.get("traced", [])):
             mode = "traced:" + ",".join(sub["names"])
